@@ -219,7 +219,7 @@ func zzWriteBatches(tape *zzTape, nb, maxRows int) (keys, vals []int64) {
 // zzH_C07_roundtrip: every sequence of batches written through the encoder is
 // read back exactly, in order, followed by EOF, for every sequence of
 // destination sizes (direct and buffered decode paths).
-func zzH_C07_roundtrip() { zzRoundtrip(2, 2, 5, 3) }
+func zzH_C07_roundtrip() { zzRoundtrip(2, 3, 6, 2) }
 func zzH_C07_roundtrip_deep() { zzRoundtrip(3, 3, 7, 3) }
 
 func zzRoundtrip(nb, maxRows, calls, maxDst int) {
@@ -232,6 +232,9 @@ func zzRoundtrip(nb, maxRows, calls, maxDst int) {
 	d.ZZExpect(keys, vals, "decoding reader")
 	if dr := r.(*decodingReader); !dr.scratch.IsZero() {
 		zz.Reach("buffered decode path")
+	}
+	if nb >= 2 && len(tape.toks) >= 12 && tape.toks[0].val > tape.toks[6].val && tape.toks[6].val >= 2 {
+		zz.Reach("smaller buffered batch after a larger one")
 	}
 	if d.Err != nil {
 		zz.Assert(d.Err == EOF, "an undamaged stream ends with EOF, not an error")
